@@ -26,7 +26,8 @@ theorem replicate_push {α} (n : Nat) (e : α) (s : List α) :
 
 theorem produce_frame (env : Env H S V) (g : Gen S V) (now : TimeV) :
     (g.produce env now).2.saved = g.saved ∧ (g.produce env now).2.kind = g.kind ∧
-    (g.produce env now).2.last = g.last ∧ (g.produce env now).2.lastTime = g.lastTime := by
+    (g.produce env now).2.last = g.last ∧ (g.produce env now).2.lastTime = g.lastTime ∧
+    (g.produce env now).2.frozen = g.frozen := by
   unfold Gen.produce
   cases g.kind <;> simp
 
@@ -190,7 +191,10 @@ def GenOK' (env : Env H S V) (k : GenKind) (l : Option V) (t : Option TimeV) (sv
   | some f => CacheOK f (l, t) ∧ ∀ c ∈ sv, CacheOK f c
   | none => True
 
-def GenOK (env : Env H S V) (g : Gen S V) : Prop := GenOK' env g.kind g.last g.lastTime g.saved
+/-- coherence of one generator; a per-instance copy that owns a stopped copy of the clock
+(`frozen`, the recorded finding) is exempt: its values are those of the time of the copy -/
+def GenOK (env : Env H S V) (g : Gen S V) : Prop :=
+  g.frozen ≠ none ∨ GenOK' env g.kind g.last g.lastTime g.saved
 
 def HeapOK (env : Env H S V) (hp : List (Gen S V)) : Prop := ∀ g ∈ hp, GenOK env g
 
@@ -198,14 +202,14 @@ theorem GenOK'_placeholder (env : Env H S V) (k : GenKind) : GenOK' env k none n
   unfold GenOK' CacheOK
   split <;> simp
 
-theorem GenOK_fresh (env : Env H S V) (k : GenKind) (f : Option (Nat × Exc) := none) :
-    GenOK env (Gen.fresh k f : Gen S V) := GenOK'_placeholder env k
+theorem GenOK_fresh (env : Env H S V) (k : GenKind) (f : Option (Nat × Exc) := none) (tf : Bool := false) :
+    GenOK env (Gen.fresh k f tf : Gen S V) := Or.inr (GenOK'_placeholder env k)
 
-theorem GenOK_reinit (env : Env H S V) (g : Gen S V) : GenOK env g.reinit := GenOK'_placeholder env g.kind
+theorem GenOK_reinit (env : Env H S V) (g : Gen S V) : GenOK env g.reinit := Or.inr (GenOK'_placeholder env g.kind)
 
-theorem GenOK_push (env : Env H S V) (g : Gen S V) (h : GenOK env g) : GenOK env g.push := by
-  show GenOK' env g.kind g.last g.lastTime ((g.last, g.lastTime) :: g.saved)
-  unfold GenOK GenOK' at *
+theorem GenOK'_push (env : Env H S V) (k : GenKind) (l : Option V) (t : Option TimeV) (sv : List (Option V × Option TimeV))
+    (h : GenOK' env k l t sv) : GenOK' env k l t ((l, t) :: sv) := by
+  unfold GenOK' at *
   split at h
   · rename_i f hf
     try simp only [hf]
@@ -219,17 +223,22 @@ theorem GenOK_push (env : Env H S V) (g : Gen S V) (h : GenOK env g) : GenOK env
     try simp only [hf]
     try trivial
 
+theorem GenOK_push (env : Env H S V) (g : Gen S V) (h : GenOK env g) : GenOK env g.push := by
+  rcases h with h | h
+  · exact Or.inl h
+  · exact Or.inr (GenOK'_push env _ _ _ _ h)
+
 theorem produce_val (env : Env H S V) (g : Gen S V) (now : TimeV) (f : TimeV → V)
-    (hk : g.kind.timeFn env = some f) : (g.produce env now).1 = f now := by
-  unfold Gen.produce
-  cases hg : g.kind <;> simp only [hg, GenKind.timeFn, Option.some.injEq] at hk ⊢
+    (hk : g.kind.timeFn env = some f) (hfz : g.frozen = none) : (g.produce env now).1 = f now := by
+  unfold Gen.produce Gen.ownTime
+  cases hg : g.kind <;> simp only [hg, hfz, GenKind.timeFn, Option.some.injEq] at hk ⊢
   · rw [← hk]; rfl
   · rw [← hk]; rfl
   · simp at hk
 
 theorem produce_val_td (env : Env H S V) (g : Gen S V) (now : TimeV) (n : String) (s : Int)
-    (hk : g.kind = .td n s) : (g.produce env now).1 = env.tdVal n s now :=
-  produce_val env g now _ (by rw [hk]; rfl)
+    (hk : g.kind = .td n s) (hfz : g.frozen = none) : (g.produce env now).1 = env.tdVal n s now :=
+  produce_val env g now _ (by rw [hk]; rfl) hfz
 
 theorem GenOK_produce (env : Env H S V) (now : TimeV) (g : Gen S V) (f : Bool) (h : GenOK env g) :
     GenOK env (produceValue env true now g f).2 := by
@@ -237,15 +246,25 @@ theorem GenOK_produce (env : Env H S V) (now : TimeV) (g : Gen S V) (f : Bool) (
   simp only [Bool.not_true, Bool.false_eq_true, if_false]
   split
   · have pf := produce_frame env g now
-    show GenOK' env (g.produce env now).2.kind (some (g.produce env now).1) (some now) (g.produce env now).2.saved
-    rw [pf.2.1, pf.1]
-    unfold GenOK GenOK' at *
-    split at h
-    · rename_i fn hf
-      try simp only [hf]
-      exact ⟨Or.inl ⟨now, rfl, by simp [produce_val env g now fn hf]⟩, h.2⟩
-    · rename_i hf
-      try simp only [hf]
+    rcases h with h | h
+    · left
+      show (g.produce env now).2.frozen ≠ none
+      rw [pf.2.2.2.2]; exact h
+    · by_cases hfz : g.frozen = none
+      · right
+        show GenOK' env (g.produce env now).2.kind (some (g.produce env now).1) (some now) (g.produce env now).2.saved
+        rw [pf.2.1, pf.1]
+        unfold GenOK' at *
+        split at h
+        · rename_i fn hf
+          try simp only [hf]
+          exact ⟨Or.inl ⟨now, rfl, by simp [produce_val env g now fn hf hfz]⟩, h.2⟩
+        · rename_i hf
+          try simp only [hf]
+          try trivial
+      · left
+        show (g.produce env now).2.frozen ≠ none
+        rw [pf.2.2.2.2]; exact hfz
   · exact h
 
 theorem GenOK_readGen (env : Env H S V) (now : TimeV) (pt : PType) (g : Gen S V) (f : Bool) (h : GenOK env g) :
@@ -254,6 +273,20 @@ theorem GenOK_readGen (env : Env H S V) (now : TimeV) (pt : PType) (g : Gen S V)
   split
   · exact h
   · exact GenOK_produce env now g f h
+
+theorem GenOK_copyAt (env : Env H S V) (now : TimeV) (g : Gen S V) (h : GenOK env g) : GenOK env (g.copyAt now) := by
+  unfold Gen.copyAt
+  rcases h with h | h
+  · left
+    cases hf : g.frozen with
+    | none => exact absurd hf h
+    | some f => simp
+  · cases hf : g.frozen with
+    | some f => left; simp
+    | none =>
+      cases g.explicitTf
+      · right; exact h
+      · left; simp
 
 theorem HeapOK_set (env : Env H S V) (hp : List (Gen S V)) (i : Nat) (g : Gen S V)
     (h : HeapOK env hp) (hg : GenOK env g) : HeapOK env (hp.set i g) := by
@@ -287,16 +320,19 @@ theorem pushGens_ok (env : Env H S V) : ∀ (gs : List Nat) (hp : List (Gen S V)
 theorem GenOK_pop (env : Env H S V) (x : Gen S V) (l : Option V) (t : Option TimeV) (rest : List (Option V × Option TimeV))
     (h : GenOK env x) (hs : x.saved = (l, t) :: rest) :
     GenOK env { x with last := l, lastTime := t, saved := rest } := by
-  show GenOK' env x.kind l t rest
-  unfold GenOK GenOK' at *
-  rw [hs] at h
-  split at h
-  · rename_i f hf
-    try simp only [hf]
-    exact ⟨h.2 (l, t) (by simp), fun c hc => h.2 c (by simp [hc])⟩
-  · rename_i hf
-    try simp only [hf]
-    try trivial
+  rcases h with h | h
+  · exact Or.inl h
+  · right
+    show GenOK' env x.kind l t rest
+    unfold GenOK' at *
+    rw [hs] at h
+    split at h
+    · rename_i f hf
+      try simp only [hf]
+      exact ⟨h.2 (l, t) (by simp), fun c hc => h.2 c (by simp [hc])⟩
+    · rename_i hf
+      try simp only [hf]
+      try trivial
 
 theorem popGens_ok (env : Env H S V) : ∀ (gs : List Nat) (hp : List (Gen S V)),
     HeapOK env hp → HeapOK env (popGens gs hp).2
@@ -312,18 +348,19 @@ theorem popGens_ok (env : Env H S V) : ∀ (gs : List Nat) (hp : List (Gen S V))
         exact popGens_ok env gs _ (HeapOK_set env hp g _ h
           (GenOK_pop env x l t rest (HeapOK_get env hp g x h hx) hs))
 
-theorem instantiate_ok (env : Env H S V) : ∀ (ss : List Slot) (hp : List (Gen S V)),
-    HeapOK env hp → HeapOK env (instantiate ss hp).2
+theorem instantiate_ok (env : Env H S V) (now : TimeV) : ∀ (ss : List Slot) (hp : List (Gen S V)),
+    HeapOK env hp → HeapOK env (instantiate now ss hp).2
   | [], _, h => h
   | s :: ss, hp, h => by
     cases s with
-    | const v => simp only [instantiate]; exact instantiate_ok env ss hp h
-    | inherit => simp only [instantiate]; exact instantiate_ok env ss hp h
+    | const v => simp only [instantiate]; exact instantiate_ok env now ss hp h
+    | inherit => simp only [instantiate]; exact instantiate_ok env now ss hp h
     | gen g =>
       simp only [instantiate]
       cases hx : hp[g]? with
-      | none => exact instantiate_ok env ss hp h
-      | some x => exact instantiate_ok env ss _ (HeapOK_append env hp x h (HeapOK_get env hp g x h hx))
+      | none => exact instantiate_ok env now ss hp h
+      | some x => exact instantiate_ok env now ss _ (HeapOK_append env hp _ h
+          (GenOK_copyAt env now x (HeapOK_get env hp g x h hx)))
 
 theorem readSlot_ok (env : Env H S V) (w : World S V) (tg : Target) (p : Nat) (f : Bool)
     (hd : w.dynTD = true) (h : HeapOK env w.gens) : HeapOK env (readSlot env w tg p f).2.gens := by
@@ -344,14 +381,14 @@ theorem srcSlot_ok (env : Env H S V) (w : World S V) (src : Src) (r : Slot × Li
   · simp only [Option.some.injEq] at hr; subst hr; exact h
   · split at hr
     · simp only [Option.some.injEq] at hr; subst hr
-      exact HeapOK_append env _ _ h (GenOK_fresh env _ _)
+      exact HeapOK_append env _ _ h (GenOK_fresh env _ _ _)
     · simp at hr
   · split at hr
     · simp only [Option.some.injEq] at hr; subst hr
-      exact HeapOK_append env _ _ h (GenOK_fresh env _ _)
+      exact HeapOK_append env _ _ h (GenOK_fresh env _ _ _)
     · simp at hr
   · simp only [Option.some.injEq] at hr; subst hr
-    exact HeapOK_append env _ _ h (GenOK_fresh env _ _)
+    exact HeapOK_append env _ _ h (GenOK_fresh env _ _ _)
   · split at hr
     · simp at hr
     · simp only [Option.some.injEq] at hr; subst hr
@@ -389,7 +426,7 @@ theorem runOp_heapOK (env : Env H S V) : ∀ (o : Op) (w : World S V),
     · exact h
     · exact popGens_ok env _ _ h
   | .assign tg p src, w, _, h => by simpa [runOp] using assignSlot_ok env w tg p src h
-  | .newInst, w, _, h => by simpa [runOp] using instantiate_ok env w.defaults w.gens h
+  | .newInst, w, _, h => by simpa [runOp] using instantiate_ok env w.clock.time w.defaults w.gens h
   | .raise _, _, _, h => by simpa [runOp] using h
   | .ctx body, w, hd, h => by
     have ih := runOps_heapOK env body { w with clock := w.clock.enter } hd h
